@@ -218,7 +218,8 @@ Definition show (o : outcome crop_out) : Z * list Z * list (Z * Z * Z * Z) * lis
     let c := footer_count (co_foot_shape R) (co_foot_win R) in
     (0, [co_i0 R; co_i1 R; co_x0 R; co_x1 R; co_z0 R; co_z1 R; co_data_len R; co_foot_pad R; c;
          if co_foot_reshape_ok R then 1 else 0],
-     map (fun f => match f with (lo, hi, p, v) => (lo, hi, pk_code p, v) end) (co_fields R), co_reads R,
+     map (fun f => match f with (en, lo, hi, p, v) => (lo, hi, pk_code p, v) end)
+         (filter (fun f => match f with (en, _, _, _, _) => en end) (co_fields R)), co_reads R,
      map (footer_src_index (co_foot_shape R) (co_foot_win R))
          (if c <=? 400 then zrange 0 c else [0; 1; c / 3; c / 2; c - 2; c - 1]))
   end.
@@ -257,6 +258,11 @@ def load_source(desc, path):
             src['structured'] = bool(r.structured)
             # modelling assumptions of the generator: axis lengths are the stated counts; structured as modelled
             src['assume_ok'] = (len(r.ilines), len(r.xlines), len(r.zslices)) == src['n3']
+            st = lambda ax: int(ax[1] - ax[0]) if len(ax) > 1 else 1
+            dt = int(round((r.zslices[1] - r.zslices[0]) * 1000)) if len(r.zslices) > 1 else 1000
+            src['afields'] = [int(r.zslices[0]), dt, int(r.xlines[0]), st(r.xlines), int(r.ilines[0]), st(r.ilines)]
+            if float(r.zslices[0]) != int(r.zslices[0]):
+                R.notes.append(f'{desc}: first sample time {r.zslices[0]} is not an integer')
             if not src['refuse']:
                 src['vol'] = r.read_volume()
                 src['keys'] = list(r.stored_header_keys)
@@ -346,7 +352,14 @@ def same(got, want):
 
 
 def check_output(src, out, box, inp):
-    """oracle for a served crop"""
+    """oracle for a served crop; an accessor of the cropped file that raises is a violation, not a harness failure"""
+    try:
+        check_output_(src, out, box, inp)
+    except Exception as e:
+        R.violation('oracle', inp, f'reading the cropped file raised {type(e).__name__}: {str(e)[:200]}')
+
+
+def check_output_(src, out, box, inp):
     i0, i1, x0, x1, z0, z1 = box
     ni, nx, nz = i1 - i0, x1 - x0, z1 - z0
     V = lambda what, detail: R.violation('oracle', inp, f'{what}: {detail}')
@@ -435,7 +448,7 @@ def check_output(src, out, box, inp):
                     for la in (False, True):
                         if dict(r.gen_trace_header(t, load_all_headers=la)) != src['th'][ts]:
                             V('gen_trace_header', f'trace {t} (source trace {ts}) load_all_headers={la}')
-        if r.get_file_binary_header()[segyio.BinField.Samples] != nz:
+        if sp.nhb > 1 and r.get_file_binary_header()[segyio.BinField.Samples] != nz:
             V('binary header', 'sample count is not the box')
         if bytes(r.get_file_text_header()[0]) != src['text']:
             V('text header', 'differs from the source')
